@@ -278,6 +278,10 @@ class Ctx:
         self._file_no += 1
         return os.path.join(self.tmpdir, "f%d_%s" % (self._file_no, name))
 
+    def reuse_path(self, name):
+        """the SAME path on every call (process history: a file replaced by another one under the same name)"""
+        return os.path.join(self.tmpdir, "same_" + name)
+
     # -- bookkeeping -----------------------------------------------------------------------------
     def count(self, name, n=1):
         self.counters[name] = self.counters.get(name, 0) + n
